@@ -35,7 +35,7 @@ TAIL = "end subroutine s\n"
 DOM = [("n", [1, 2, 3, 4]), ("m", [1, 2]), ("kout", [7]), ("t", [[1, 2]]), ("u", [[3, 1]]),
        ("flag", [True, False])]
 FILLS = [1, 2]
-TIME_LIMIT = 20
+TIME_LIMIT = 60
 
 
 def prog(body, extra_decl=()):
@@ -140,8 +140,10 @@ def _build(item):
     for li, loop in enumerate(loops):
         for opts in ({}, {"test_all_variables": True}):
             cid = f"{pid}#loop{li}" + ("+all" if opts else "")
-            signal.signal(signal.SIGALRM, _alarm)
-            signal.alarm(TIME_LIMIT)
+            # CPU time of this process, not wall-clock time: a loaded machine must not
+            # look like a non-terminating analysis
+            signal.signal(signal.SIGPROF, _alarm)
+            signal.setitimer(signal.ITIMER_PROF, TIME_LIMIT)
             try:
                 dt = DependencyTools()
                 verdict = bool(dt.can_loop_be_parallelised(loop, **opts))
@@ -154,7 +156,7 @@ def _build(item):
                             "why": f"{type(err).__name__}: {err}"[:300]})
                 continue
             finally:
-                signal.alarm(0)
+                signal.setitimer(signal.ITIMER_PROF, 0)
             try:
                 ex = sem.Exporter().routine(r)
             except Unsupported as err:
